@@ -624,3 +624,53 @@ def access_error_message_total(ctx):
                '' if ok else 'glom(1, S.zz): the error message cannot be rendered for an S- or A-rooted path', node=c)
     ctx.ob(True, u, 'message rendering reads the stored path (%d re-wrap site(s))' % len(wraps))
     ctx.floor(1)
+
+
+@rule('C05.14')
+def error_pushed_down_every_level(ctx):
+    """the reader removes an error from a level when the next level carries the same one, so that
+    it is printed once, where it was first raised: the pass over adjacent levels must cover every
+    pair (index loop i over stack[i], stack[i + 1] with bound len(stack) - 1)"""
+    from ..affine import linear, NotAffine
+    u = ctx.unit('core._unpack_stack')
+    found = 0
+    for lp in [n for n in u.own_nodes() if isinstance(n, ast.While)]:
+        t = lp.test
+        if not (isinstance(t, ast.Compare) and is_name(t.left) and isinstance(t.ops[0], ast.Lt)):
+            continue
+        iv = t.left.id
+        offs = set()
+        arr = None
+        for s_ in ast.walk(lp):
+            if isinstance(s_, ast.Subscript) and is_name(s_.value) and not isinstance(s_.slice, ast.Slice):
+                try:
+                    a, b = linear(s_.slice, {iv: (1, 0)})
+                except NotAffine:
+                    continue
+                if a == 1:
+                    offs.add(b)
+                    arr = s_.value.id
+        if not offs or arr is None:
+            continue
+        found += 1
+
+        class L(ast.NodeTransformer):
+            def visit_Call(self, node):
+                if is_name(node.func, 'len') and len(node.args) == 1 and is_name(node.args[0], arr):
+                    return ast.Name(id='__L__', ctx=ast.Load())
+                return node
+        import copy
+        try:
+            bnd = linear(L().visit(copy.deepcopy(t.comparators[0])), {'__L__': (1, 0)})
+        except NotAffine:
+            bnd = None
+        ok = bnd == (1, -max(offs)) and min(offs) == 0
+        ctx.ob(ok, u, 'adjacent levels %s[i+%s] are compared for every i < len(%s) - %d: while %s'
+               % (arr, sorted(offs), arr, max(offs), norm(t)),
+               '' if ok else 'the last pair(s) are not visited: an error stays printed on a level above the one that raised it', node=lp)
+    for lp in [n for n in u.own_nodes() if isinstance(n, ast.For)]:
+        if matches(lp.iter, 'zip($a, $a[1:])'):
+            found += 1
+            ctx.ob(True, u, 'adjacent levels are paired by zip(levels, levels[1:]): every pair', node=lp)
+    ctx.require(found >= 1, '_unpack_stack: adjacent-level pass not found')
+    ctx.floor(1)
